@@ -12,7 +12,7 @@ import (
 func init() { vh.Register("C05", Run) }
 
 type replay struct {
-	Kind string `json:"kind"`           // prog | cli | known
+	Kind string `json:"kind"`           // prog | cli | known | script
 	Case *Case  `json:"case,omitempty"` // prog
 	Name string `json:"name,omitempty"` // cli / known: which scenario
 }
@@ -382,6 +382,8 @@ func Run(c *vh.Ctx) {
 			r.cli(rp.Name)
 		case "known":
 			r.known(rp.Name)
+		case "script":
+			r.extra(rp.Name)
 		}
 		return
 	}
@@ -408,6 +410,7 @@ func Run(c *vh.Ctx) {
 	if r.failures >= floodLimit {
 		c.Note("more than %d failing programs: the remaining generated programs were skipped", floodLimit)
 	}
+	r.extra("")
 	r.known("")
 	r.cli("")
 	if r.m != nil {
